@@ -22,7 +22,8 @@ Section Inv.
     destruct (lookup url (g_lookups G)) as [ls|]; [|discriminate].
     destruct (find (fun l => String.eqb (lk_type l) parent) ls) as [l|]; [|discriminate].
     cbn [rbind] in H.
-    match type of H with match ?C with _ => _ end = _ => destruct C as [d|es partial|k] end.
+    match type of H with context [fold_left ?F ?L ?I] => destruct (fold_left F L I) as [[rqs outcome] nb] end.
+    destruct outcome as [d|es partial|k].
     - (* data *)
       match type of H with match ?N with [] => _ | _ => _ end = _ => destruct N as [|x0 nn] eqn:En end.
       + inversion H; subst. exact Ha.
